@@ -17,7 +17,7 @@ func init() { register("C05", "other", checkC05) }
 
 func checkC05(w *World, r *Result) {
 	r.Explanation = "Decides the structural clauses the property names: AGR-C05a in newColumnsCode the per-column lists fall into two groups (all columns / without the primary key) and within a group every list grows once per iteration in the same block (equal lengths, aligned positions); guards are skipped first; AGR-C05b every placeholder appended to a list X is `$len(X)+1` (numbered 1..n without gap); AGR-C05e the index compared with Table.Primary() is the range index over ta.Columns itself (the slice Primary() indexes); columnsCount is the length of the full group; TPL-C05c in every statement of the CRUD templates the column list, the placeholder list and the Go argument list come from the same group, SELECT/RETURNING lists are the full group (what the scan destinations expect), the UPDATE id placeholder is columnsCount and its argument follows the values, and statements with literal placeholders carry exactly $1..$n and n arguments; helper comparisons number i+1 over the same columns their argument names come from; AGR-C05d every table position is filled by SQLTableName and every column position by the Go field name (lower-cased in CRUD), never by the JSON name; AGR-C08f/AGR-C08t foreign-key detection shared with the DDL (rules shared with C08); TPL-1 the templates parse as Go. Does not decide: that statements execute without SQL error or the map-model behaviour over histories (needs a database)."
-	r.Rules = []string{"AGR-C05a", "AGR-C05b", "AGR-C05e", "TPL-C05c", "AGR-C05d", "AGR-C08f", "AGR-C08t", "TPL-1"}
+	r.Rules = []string{"AGR-C05a", "AGR-C05b", "AGR-C05e", "TPL-C05c", "AGR-C05d", "AGR-C08f", "AGR-C08t", "AGR-C05k", "TPL-1"}
 	checkColumnsCode(w, r)
 	checkStatements(w, r)
 	n := checkTableNaming(w, r, "generator/go/sqlcrud")
@@ -33,6 +33,7 @@ func checkC05(w *World, r *Result) {
 	for _, o := range sub.Obs {
 		r.add(o)
 	}
+	checkCompositeLockstep(w, r)
 	runTPLGo(w, r, "generator/go/sqlcrud", 2)
 }
 
@@ -563,4 +564,53 @@ func checkColumnNaming(w *World, r *Result) {
 		return true
 	})
 	r.cond(okCS, "AGR-C05d", cs.Name, "DDL column name = Go field name", fnPos(w, cs), "col.Field.Field.Name()", "the DDL column name is not the Go field name")
+}
+
+// checkCompositeLockstep (AGR-C05k): a composite column is written positionally -- CREATE TYPE lists the fields,
+// the generated Value() writes them and Scan() splits on commas and counts them. The three loops over the
+// struct's fields (the classifier isComposite, the DDL, the Go converters) must select the same fields: their
+// guard sets are compared; today they are all empty.
+func checkCompositeLockstep(w *World, r *Result) {
+	want := map[string]bool{"analysis/sql.isComposite": true, "generator/sql.compositeDecl": true, "generator/go/sqlcrud.(context).compositeConverters": true}
+	type seen struct {
+		fl     *fieldLoop
+		guards []string
+	}
+	var loops []seen
+	for _, fl := range fieldLoops(w) {
+		if fl.kind != "StructField" || !want[fl.fn.Name] {
+			continue
+		}
+		info := fl.pkg.TypesInfo
+		// every condition under which an iteration is skipped: leading guards, and any continue in the body
+		var guards []string
+		ast.Inspect(fl.rs.Body, func(x ast.Node) bool {
+			bs, ok := x.(*ast.BranchStmt)
+			if !ok || bs.Tok.String() != "continue" {
+				return true
+			}
+			for _, c := range condSet(info, pathCondsNoLoop(fl.fn, bs), fl.subst) {
+				guards = append(guards, c)
+			}
+			if len(pathCondsNoLoop(fl.fn, bs)) == 0 {
+				guards = append(guards, "<unconditional continue>")
+			}
+			return true
+		})
+		guards = append(guards, leadingGuards(info, fl.rs.Body, fl.subst)...)
+		sort.Strings(guards)
+		loops = append(loops, seen{fl, uniqStr(guards)})
+	}
+	if len(loops) != 3 {
+		Undecided("AGR-C05k: expected the three composite field loops (isComposite, compositeDecl, compositeConverters), found %d", len(loops))
+	}
+	ref := loops[0]
+	for _, l := range loops {
+		cons := "fields selected by " + l.fl.fn.Name
+		if setEq(l.guards, ref.guards) {
+			r.ok("AGR-C05k", l.fl.fn.Name, cons, w.Pos(l.fl.rs.Pos()), "same field filter {"+strings.Join(l.guards, ", ")+"} as "+ref.fl.fn.Name+": DDL, Value() and Scan() agree on the positional field list", true)
+		} else {
+			r.bad("AGR-C05k", l.fl.fn.Name, cons, w.Pos(l.fl.rs.Pos()), "field filter {"+strings.Join(l.guards, ", ")+"} differs from {"+strings.Join(ref.guards, ", ")+"} in "+ref.fl.fn.Name+": the composite type's DDL and the generated Scan/Value disagree on the number and position of the fields")
+		}
+	}
 }
